@@ -175,6 +175,44 @@ func pwFunc(fset *token.FileSet, fd *ast.FuncDecl) []pwEntry {
 					pointer[id.Name] = true
 					changed = true
 				}
+				return
+			}
+			// a composite literal that stores something reachable from a parameter (a table of "shortcuts" to the rules of
+			// an item, say) is itself a way to reach it
+			var inLit func(e ast.Expr) bool
+			inLit = func(e ast.Expr) bool {
+				switch x := e.(type) {
+				case *ast.CompositeLit:
+					for _, el := range x.Elts {
+						if kv, ok := el.(*ast.KeyValueExpr); ok {
+							el = kv.Value
+						}
+						if inLit(el) {
+							return true
+						}
+					}
+					return false
+				case *ast.UnaryExpr:
+					if x.Op == token.AND {
+						return inLit(x.X)
+					}
+					return false
+				case *ast.BasicLit:
+					return false
+				}
+				_, _, _, _, ok := isTainted(e)
+				return ok
+			}
+			if _, isLit := rhs.(*ast.CompositeLit); isLit && inLit(rhs) {
+				tainted[id.Name] = true
+				pointer[id.Name] = true
+				changed = true
+			} else if u, isU := rhs.(*ast.UnaryExpr); isU && u.Op == token.AND {
+				if _, isLit := u.X.(*ast.CompositeLit); isLit && inLit(u.X) {
+					tainted[id.Name] = true
+					pointer[id.Name] = true
+					changed = true
+				}
 			}
 		}
 		ast.Inspect(fd.Body, func(n ast.Node) bool {
